@@ -6,6 +6,8 @@ from vlib.gens import *
 GROUP = "mem"
 LEAN_PROPS = "Dashu.Props.C17"
 LEAN_AUDIT = "Dashu.Audit.C17"
+GEN_PROPS = ["Dashu.Props.C17Link"]     # link theorems to C12 (Lehmer kernel of the gcd skeleton) and C07 (DigitWriter)
+GEN_AUDIT = ["Dashu.Audit.C17Link"]
 USES_GEN = True          # Buffer::default_capacity / max_compact_capacity are regenerated (Dashu.Gen.Misc)
 JOBS = 12
 READY = True
@@ -26,7 +28,11 @@ THEOREMS = [P + t for t in [
     "unsafe_buffer_rs_438_zeroize", "unsafe_repr_rs_253_zeroize",
     "skeleton_ops_ok_round4", "array_layout_spec", "add_max_layout_valid", "unsafe_memory_rs_43_70", "add_layout_serves_bump",
     "add_layout_words", "pow_word_base_never_resizes", "pow_dword_base_never_resizes",
-    "skeleton_ops_ok_round4b", "skeleton_ops_ok_sqrt_rem", "max_layout_serves_each", "skeleton_ops_ok_ibig_bits"]]
+    "skeleton_ops_ok_round4b", "skeleton_ops_ok_sqrt_rem", "max_layout_serves_each", "skeleton_ops_ok_ibig_bits",
+    "skeleton_ops_ok_round5", "gcd_skeleton_value_is_c12_loop", "sqrt_leftover_is_kernel_state",
+    "scratch_formulas_regenerated"]] + [
+    "Dashu.Props.C17Link." + t for t in ["gcd_skeleton_kernel_is_c12", "rawToAscii_ascii", "digit_writer_all_writes_in_bounds",
+                                         "digit_writer_write_keeps_len"]]
 
 REFINED = [
     "buffer.rs: allocate_raw(97) deallocate_raw(111) reallocate_raw(148) push(209) push_repeat(235) push_zeros_front(266) "
@@ -60,6 +66,25 @@ REFINED = [
     "UBig::sqrt_rem (root_ops.rs sqrt_rem_large(words, false): shl_large_ref(..).into_buffer() work copy, fresh root buffer, "
     "max_layout(sqr, div) scratch block, remainder left in the truncated copy); the compound assignments op= / <<= / >>= "
     "(impl_binop_assign_by_taking = mem::take + the by-value form) are driven as forms av / ar / a against the vv / vr / v skeletons",
+    "round 5 storage skeletons on C12's mirrored kernels (Model/Mem/Arith4.lean, same tie: exact allocator event stream): "
+    "UBig::sqrt() (root_ops.rs sqrt_rem_large(words, true).0: Repr::from_buffer is called on the RAW 2n-word work buffer — low half = "
+    "low words of the kernel's remainder, high half = what root::sqrt_rem leaves at its top level: a_hi = q^2 plus the q_top flag, "
+    "or the untouched input words for n = 2 — computed by sqrtLeftover from C12's sqrtRemRec / kDiv; the second Repr is dropped "
+    "after the scratch block); Gcd::gcd of UBig and of IBig in all four forms (gcd_ops.rs: by-value operands are only read, "
+    "gcd_large copies both, the copy that ends up holding the result is selected by the `swapped` flag of lehmer.rs gcd_in_place = "
+    "C12's lehmerGcdLoop with the flag tracked, truncate + from_buffer, scratch block mul::memory_requirement_up_to(rhs_len, "
+    "rhs_len/2) freed before the other copy; gcd_large_dword, the dword arm, the (0,0) panic); ExtendedGcd::gcd_ext of UBig in all "
+    "four forms (gcd_ext_dword; gcd_ext_large_dword dividing and rebuilding |b| in the by-value buffer or in a copy; "
+    "gcd_ext_large: by-value large operands ARE the work buffers, gcd left in the smaller operand's buffer, |b| in the larger "
+    "one's, |a| = (rhs*|b| -+ g)/lhs copied out of the scratch slice into a fresh buffer with the overflow word pushed, or "
+    "Repr::zero() when the residue is shorter than lhs; scratch = add(clone, max(gcd_ext, post)); result order swapped back); "
+    "values from C12's gcdExtSmall / lehmerExtKernel / xgcdPrimWide",
+    "fmt/digit_writer.rs DigitWriter::{write, flush} (the only hand-indexed byte buffer of the formatting path and its "
+    "`unsafe { str::from_utf8_unchecked }`): linked by theorem to C07's mirrored writer (Props/C17Link "
+    "digit_writer_all_writes_in_bounds, digit_writer_write_keeps_len) — for EVERY sequence of writes no slice range leaves "
+    "[u8; BUFFER_LEN] and every byte reaching from_utf8_unchecked is 7-bit ASCII",
+    "scratch-block sizes of the mul / sqr / div / sqrt / gcd / gcd_ext skeletons = the formulas regenerated from /repo "
+    "(Dashu.Gen.Scratch incl. the new lehmer / gcd / gcd_large / gcd_ext_large targets; theorem scratch_formulas_regenerated, Tie A)",
     "memory.rs array_layout / add_layout / max_layout / zero_layout and MemoryAllocation::new / Drop (36-50, 66-72): size/alignment "
     "arithmetic over core::alloc::Layout's documented behaviour (Model/Mem/Layout.lean) — validity closure, the allocate_too_much arm "
     "of new is dead for every valid layout, GlobalAlloc contract of alloc/dealloc, add_layout exactly sufficient and aligned for the "
@@ -75,15 +100,17 @@ FRONTIER = [
     "(87,393,407: no memory access outside the struct), "
     "unsafe impl Send/Sync (buffer.rs:35,38; repr.rs:62,65), Memory's Debug offset_from(27); MemoryAllocation::memory()'s "
     "`start.wrapping_add(size)` (no wrap: follows from the allocator contract, not proved)",
-    "NOT modelled: arch/*/add.rs intrinsics, fmt/digit_writer.rs (exercised by Miri histories only)",
-    "arithmetic skeletons: gcd/gcd_ext (which operand copy ends up holding the result depends on the parity of the Lehmer "
-    "swap steps: needs C12's mirrored gcd_in_place), plain sqrt() (root_only: from_buffer is also called on the 2n-word work buffer "
-    "whose high half is kernel leftover, so its realloc/dealloc event depends on kernel state), nth_root (Newton loop over "
-    "public ops), IBig `!` as a public operator, mixed UBig/IBig operand forms, the Euclidean "
-    "division family, DivRemAssign, the primitive-operand forms, to_*_bytes (a Vec<u8>, not a word "
-    "buffer) and parsing/printing are "
-    "NOT mirrored op by op; they are covered by the general theorem only through their final Repr::from_buffer / from_dword "
+    "NOT modelled: arch/*/add.rs intrinsics (safe code: `core::arch` add-with-carry intrinsics on values, no pointer; owned by C19's "
+    "Gen/ArchAdd tie)",
+    "arithmetic skeletons NOT mirrored op by op: nth_root for n >= 3 (a Newton loop over the PUBLIC operations pow / div / mul / "
+    "add whose skeletons are mirrored, but the primitive-operand forms `x * usize`, `/ usize` it uses are not), IBig gcd_ext (sign "
+    "multiplication of the coefficients) and the mixed UBig/IBig operand forms of gcd / gcd_ext, IBig `!` as a public operator, "
+    "the Euclidean division family, DivRemAssign, the primitive-operand forms, to_*_bytes (a Vec<u8>, not a word "
+    "buffer) and parsing/printing; they are covered by the general theorem only through their final Repr::from_buffer / from_dword "
     "(any history of Buffer ops followed by from_buffer is canonical) and by the value-level exploration",
+    "gcd / gcd_ext / sqrt skeletons: that lehmer.rs / root.rs stay inside the slices they are handed (`x[..y.len()]`, `t0[..qt1_len]`, "
+    "`a[2*split..]`) is bounds-CHECKED slice code, not a ledger fact; C12 owns the buffer-length claims (Props/C12 LehmerBuf*); here "
+    "only the Buffer/Repr storage calls around the kernels are mirrored",
     "Rust-level UB that is not a ledger fact (aliasing/provenance, transmute validity, alignment, reads of uninitialised "
     "[len,cap)) — outside any executable Lean model; Miri is supporting evidence",
     "pow_word_base / pow_dword_base: that the single result buffer never reallocates (`// actually never resize`) is proved for the "
@@ -105,7 +132,14 @@ RULE = ("mem.buf: typed histories of 1..40 operations over 8 registers (empty | 
         "generated with Python-tracked values so that magnitudes cross 0/1/2/3 words and the reallocation thresholds in both "
         "directions (x op= &x.clone(), clone_from larger/smaller/equal, words/bytes round trips, shifts, mul/sqr/pow, div/rem/gcd "
         "through the scratch bump allocator, sub to zero, ones, take/swap/drop); after every step value + layout invariant of every "
-        "live register; at the end live bytes/pointers back to the start and no double free. mem.policy: default/max_compact "
+        "live register; at the end live bytes/pointers back to the start and no double free. "
+        "mem.arith (one public operation in one ownership form; result layout + exact allocator events + drops against the storage "
+        "skeleton): operand lengths 0..40 (thorough 60, scratch classes up to 800) words x patterns x forms per operation; round 5: "
+        "sqrt (7 patterns, roots with zero low half, q_top, k^2-1/k^2/k^2+1 for k of every bit length), gcd/igcd/gcd_ext (coprime, common "
+        "factor of 1..4 words, divides, equal, +-1, shifted, Fibonacci pairs, (0,0), scratch and double-word-guess thresholds); "
+        "E1 extremes: every usize argument of shl/shr/ishl/ishr/set_bit/clear_bit/clear_high_bits/split_bits/pow at 0, 1, W-1..2W, "
+        "2^31, 2^32-1, 2^32, 2^32+k, 2^63, usize::MAX-k (growth operations only where the result is small or the request exceeds "
+        "MAX_CAPACITY: the documented allocation panic is compared). mem.policy: default/max_compact "
         "capacity at n in size classes up to MAX_CAPACITY. mem.miri: the same history interpreter under `cargo +nightly miri` "
         "(permissive provenance), a fixed set in quick, fixed + seeded in thorough; any Miri error or leak = violation. "
         "Non-trivial := a mem.buf history with >= 1 allocator event beyond the first allocation, or a mem.val history with a "
@@ -118,7 +152,8 @@ EXPLANATION = ("PROVED (Lean, all histories by induction over the op list, all M
                "for all size relations; ones canonical; capacity policy chain on the regenerated formulas; one obligation per "
                "modelled unsafe block (unsafe_<file>_<line>); bump-allocator slices aligned, inside, pairwise disjoint; memory.rs layout "
                "arithmetic valid, MemoryAllocation::new's too-much arm dead, add_layout sufficient for its consumers; the pow result "
-               "buffer's length bound. "
+               "buffer's length bound; scratch sizes = regenerated formulas; the gcd skeleton's kernel = C12's loop and always "
+               "returns the gcd; DigitWriter in bounds + ASCII for all write sequences (link to C07). "
                "static-backed values read-only; shift.rs/primitive.rs block obligations; every mirrored public operation (see REFINED) is a history over the "
                "proved op alphabet, so canonical results incl. the compactness bound hold after arithmetic whatever the kernels write "
                "(arithmetic_histories_keep_invariant, invariant_says_canonical). "
@@ -141,11 +176,16 @@ LEVEL_TEXT = ("Machine-checked Lean 4 theorems over an executable ledger model o
               "state and the same allocator event stream after every operation. Public operations enter the theorems as storage "
               "skeletons (the exact sequence of Buffer/Repr calls, word-level kernels abstracted to an arbitrary overwrite) that are "
               "compared with the real allocator event stream: UBig + - * / % div_rem & | ^ << >> sqr pow, set_bit/clear_bit/"
-              "clear_high_bits/split_bits/next_power_of_two, sqrt_rem, from_le/be_bytes, IBig + - * / % div_rem & | ^ << >> pow, all ownership "
-              "forms incl. the compound assignments. "
+              "clear_high_bits/split_bits/next_power_of_two, sqrt_rem, sqrt, gcd, gcd_ext, from_le/be_bytes, IBig + - * / % div_rem & | ^ << >> pow gcd, all ownership "
+              "forms incl. the compound assignments; where the storage events depend on the state a number-theory kernel leaves in "
+              "the buffers (sqrt's raw work buffer, which operand copy holds the gcd, the lengths of the Bezout coefficients) that state "
+              "is computed by property C12's mirrored kernels, and the kernel used is proved to be C12's (value component of the "
+              "flag-tracking Lehmer loop = lehmerGcdLoop; it always returns the gcd). The scratch-block sizes are the formulas "
+              "regenerated from source (theorem). fmt/digit_writer.rs's byte buffer and from_utf8_unchecked are covered by a link "
+              "theorem to C07's mirrored writer (all write sequences). "
               "memory.rs layout arithmetic (array_layout/add_layout/max_layout, MemoryAllocation::new/Drop) is proved valid, its "
               "allocate_too_much arm dead, add_layout sufficient for its two bump consumers. PARTIAL: Rust-level UB beyond "
-              "bounds/lifetime (aliasing, transmute validity, uninitialised reads) is not decided by proof; gcd, sqrt()/nth_root, parsing/printing, "
+              "bounds/lifetime (aliasing, transmute validity, uninitialised reads) is not decided by proof; nth_root (n >= 3), IBig gcd_ext and mixed UBig/IBig forms, parsing/printing, "
               "Euclidean division and primitive-operand forms are covered only through their final from_buffer and explored by "
               "value-level histories with invariant checks and by Miri runs of the same histories; that a skeleton never hits an "
               "internal assert is observed, not proved (except the pow result-buffer length bound).")
@@ -987,7 +1027,15 @@ def miri_cases(rng, tier):
               ("arith", ["divrem", "vv", hx((B3 << 64) + 12345), hx(B3 - 99)]), ("arith", ["or", "vr", hx(B3), hx(1 << 600)]),
               ("arith", ["setbit", "v", hx(B3), "d:448"]), ("arith", ["ishr", "v", hx(-((1 << 197) - 1)), "d:5"]),
               ("arith", ["pow", "r", hx((1 << 64) + 1), "d:5"]), ("arith", ["pow", "r", hx(3 << 70), "d:90"]),
-              ("arith", ["sqrtrem", "r", hx((B3 << 128) + 7), "d:0"]), ("arith", ["xor", "av", hx(B3), hx(B3)])]
+              ("arith", ["sqrtrem", "r", hx((B3 << 128) + 7), "d:0"]), ("arith", ["xor", "av", hx(B3), hx(B3)]),
+              # round 5: sqrt() on the raw work buffer, gcd in the operand copies, gcd_ext with by-value work buffers, the
+              # copied scratch slices and the residue division
+              ("arith", ["sqrt", "r", hx((B3 << 128) + 7), "d:0"]), ("arith", ["sqrt", "r", hx((1 << 320) + 5), "d:0"]),
+              ("arith", ["gcd", "vr", hx(B3 * 0x10000000000000000000000000000000f), hx(B3 * 3)]),
+              ("arith", ["igcd", "rv", hx(-(B3 << 70)), hx((1 << 300) + 12345)]),
+              ("arith", ["gcdext", "vv", hx((B3 << 64) + 12345), hx(B3 - 99)]),
+              ("arith", ["gcdext", "rr", hx(B3 - 99), hx((B3 << 64) * (B3 - 99))]),
+              ("arith", ["gcdext", "rv", hx(12345), hx((B3 << 64) + 77)])]
     if tier == "thorough":
         for _ in range(700):
             hists.append(("buf", buf_history(rng, rng.choice([6, 12, 25]))))
@@ -1006,14 +1054,22 @@ def miri_cases(rng, tier):
                 return int(c.args[3][2:]) <= 4096
             return True
         ar4 = [c for c in list(with_assign_forms(rng, round4_cases(rng, "quick"))) + list(with_assign_forms(rng, round4b_cases(rng, "quick")))
-               + list(sqrt_cases(rng, "quick")) + list(with_assign_forms(rng, ibit_cases(rng, "quick"))) if _miri_ok(c)]
-        for c in rng.sample(ar4, min(500, len(ar4))):
+               + list(sqrt_cases(rng, "quick")) + list(with_assign_forms(rng, ibit_cases(rng, "quick")))
+               + list(round5_cases(rng, "quick")) if _miri_ok(c)]
+        for c in rng.sample(ar4, min(700, len(ar4))):
             hists.append(("arith", list(c.args)))
         hists = [h for h in hists if h[1]]
-    tdir = tempfile.mkdtemp(prefix="verif-miri-")
+    # the Miri build of dashu-int + harness dominates the quick tier on a loaded machine: keep its target directory warm
+    # for the unchanged /repo (cargo's fingerprints rebuild what changed); scratch copies of /repo (trial runs) get a
+    # throw-away directory
+    from vlib import core as _core
+    warm = _core.REPO == "/repo"
+    tdir = os.path.join(_core.CACHE, "miri-alt-c17") if warm else tempfile.mkdtemp(prefix="verif-miri-")
+    os.makedirs(tdir, exist_ok=True)
     try:
         # first (small) invocation builds; later chunks run in parallel on the warm target dir
-        chunks = [hists[:4]] + [hists[i:i + 60] for i in range(4, len(hists), 60)]
+        csz = 7 if tier == "quick" else 60
+        chunks = [hists[:4]] + [hists[i:i + csz] for i in range(4, len(hists), csz)]
         results = []
         v, err = _miri_run(tdir, chunks[0], 900)
         if v is None or all(x is None for x in v.values()):
@@ -1037,7 +1093,8 @@ def miri_cases(rng, tier):
         MIRI_NOTE["histories"] = len(hists)
         MIRI_NOTE["seconds"] = round(time.time() - t0, 1)
     finally:
-        shutil.rmtree(tdir, ignore_errors=True)
+        if not warm:
+            shutil.rmtree(tdir, ignore_errors=True)
 
 
 def clone_from_ladder(rng, tier):
@@ -1406,6 +1463,167 @@ def ibit_cases(rng, tier):
             yield Case("mem.arith", ["iand", f, hx(ones << 64), hx(-(1 << 64))])
 
 
+def round5_cases(rng, tier):
+    """mem.arith, round 5: `UBig::sqrt()` (from_buffer on the raw work buffer: its high half is kernel state), `Gcd::gcd` of
+    UBig / IBig (which operand copy holds the result = parity of the Lehmer swaps) and `ExtendedGcd::gcd_ext` of UBig (by-value
+    large operands become work buffers; `|a|` copied out of the scratch block) in all ownership forms"""
+    import math
+    forms = ["rr", "rv", "vr", "vv"]
+    B = 1 << 64
+
+    def operand(n, pat):
+        return nat_pattern(rng, n, pat) if n else 0
+
+    # ---------------- sqrt
+    lens = [0, 1, 2, 3, 4, 5, 6, 7, 8, 9, 16, 17, 24, 25, 33, 40, 61, 62, 64, 65, 70] + ([100, 131, 200, 400] if tier == "thorough" else [])
+    reps = 1 if tier == "quick" else 4
+    for _ in range(reps):
+        for la in lens:
+            for pat in ("random", "ones", "pow2", "topone", "square", "squarem1", "squarep"):
+                if pat in ("square", "squarem1", "squarep"):
+                    h = operand((la + 1) // 2, "random")
+                    a = max(h * h + {"square": 0, "squarem1": -1, "squarep": 2 * h}[pat], 0)
+                else:
+                    a = operand(la, pat)
+                for sh in (0, rng.randrange(1, 64), rng.randrange(1, 64)):
+                    yield Case("mem.arith", ["sqrt", "r", hx(a >> sh), "d:0"])
+            if la >= 3:
+                n = (la + 1) // 2
+                split = n // 2
+                h = n - split
+                # the root's low half is zero: q = 0, the high half of the work buffer is zero, from_buffer pops down to the
+                # remainder (<= 2 words: freed on the spot; 3+ words: shrink realloc)
+                s1 = operand(h, "random") | (1 << (64 * h - 1))
+                s = s1 << (64 * split)
+                for r in (0, 1, 5, B - 1, B, B * B - 1, B * B, operand(min(3, n), "random"), 2 * s):
+                    if r <= 2 * s:
+                        for sh in (0, 2, 64, 66):
+                            yield Case("mem.arith", ["sqrt", "r", hx((s * s + r) >> sh), "d:0"])
+                # q_top: r1 = 2*s1 at the top level (high part = (s1+1)^2 - 1): q = B, the squaring is skipped and the flag is
+                # stored at word 2*split (n odd) or charged to the carry (n even: the whole high half stays zero)
+                hi = (s1 + 1) * (s1 + 1) - 1
+                for low in (0, 1, (1 << (128 * split)) - 1, rng.getrandbits(128 * split)):
+                    for sh in (0, 64):
+                        yield Case("mem.arith", ["sqrt", "r", hx(((hi << (128 * split)) | low) >> sh), "d:0"])
+    # E2: k^2 - 1, k^2, k^2 + 1 for k of EVERY bit length (inline, 3-word boundary, multi-word)
+    for bl in range(1, 331 if tier == "quick" else 1400):
+        k = rng.getrandbits(bl) | (1 << (bl - 1))
+        for d in (-1, 0, 1):
+            if tier == "thorough" or rng.random() < 0.5:
+                yield Case("mem.arith", ["sqrt", "r", hx(k * k + d), "d:0"])
+        if bl % 7 == 0:
+            yield Case("mem.arith", ["sqrtrem", "r", hx(k * k - 1), "d:0"])
+            yield Case("mem.arith", ["sqrtrem", "r", hx(k * k + 2 * k), "d:0"])
+
+    # ---------------- gcd / igcd / gcd_ext
+    glens = [0, 1, 2, 3, 4, 5, 9, 17, 40] if tier == "quick" else [0, 1, 2, 3, 4, 5, 6, 8, 9, 12, 17, 24, 25, 40, 51, 60]
+
+    def fib_pair(bits):
+        x, y = 1, 1
+        while y.bit_length() < bits:
+            x, y = y, x + y
+        return y, x
+
+    for _ in range(reps):
+        for la in glens:
+            for lb in glens:
+                for f in forms:
+                    a = operand(la, rng.choice(["random", "random", "ones", "topone"]))
+                    b = operand(lb, rng.choice(["random", "random", "pow2", "one", "highbit"]))
+                    g = operand(rng.choice([1, 1, 2, 3, 4]), "random")
+                    variants = [(a, b), (a * g, b * g)]
+                    r = rng.random()
+                    if r < 0.2:
+                        variants.append((a * max(b, 1), b))                       # rhs divides lhs: g = rhs, b coefficient 1, a = 0
+                    elif r < 0.35:
+                        variants.append((a, a))                                   # equal
+                    elif r < 0.5:
+                        variants.append((a, a + rng.choice([1, -1, B]) if a > 1 else a))
+                    elif r < 0.6:
+                        variants.append((a << rng.choice([1, 64, 130]), b << rng.choice([0, 64, 200])))
+                    elif r < 0.7 and la >= 1 and lb >= 1:
+                        variants.append(fib_pair(64 * max(la, lb) - rng.randrange(0, 64)))   # quotients all 1: many Lehmer steps
+                    elif r < 0.8:
+                        variants.append((b, a))
+                    for (x, y) in variants:
+                        x, y = max(x, 0), max(y, 0)
+                        if x == 0 and y == 0 and rng.random() < 0.8:
+                            continue
+                        for op in ("gcd", "gcdext"):
+                            if tier == "thorough" or rng.random() < 0.6:
+                                yield Case("mem.arith", [op, f, hx(x), hx(y)])
+                        if rng.random() < 0.3:
+                            yield Case("mem.arith", ["igcd", f, hx(rng.choice([1, -1]) * x), hx(rng.choice([1, -1]) * y)])
+    for f in forms:
+        # (0, 0): the documented panic; 0 with a large value: the value itself (a copy / the moved buffer)
+        for op in ("gcd", "gcdext", "igcd"):
+            yield Case("mem.arith", [op, f, hx(0), hx(0)])
+            yield Case("mem.arith", [op, f, hx(0), hx(operand(4, "random"))])
+            yield Case("mem.arith", [op, f, hx(operand(4, "random")), hx(0)])
+            yield Case("mem.arith", [op, f, hx(1), hx(operand(5, "random"))])
+            yield Case("mem.arith", [op, f, hx(operand(5, "random")), hx(B)])      # two-word rhs: *_dword arms
+            yield Case("mem.arith", [op, f, hx(B * B - 1), hx(operand(5, "random"))])
+        # gcd result of exactly 1, 2, 3 words from large operands (inline <-> heap boundary of the truncated copy)
+        for gl in (1, 2, 3, 4):
+            g = operand(gl, "random") | 1
+            p, q = 0x10000000000000000000000000000000f, 0x1000000000000000000000000000000000000003d   # coprime cofactors
+            for op in ("gcd", "gcdext"):
+                yield Case("mem.arith", [op, f, hx(g * p * 3), hx(g * q)])
+                yield Case("mem.arith", [op, f, hx(g * q), hx(g * p * 3)])
+    # scratch blocks: gcd needs one when rhs_len/2 > mul THRESHOLD_SIMPLE (24); gcd_ext always; lhs >= 300 words takes the
+    # double-word guess (MIN_DWORD_GUESS_LEN); Euclidean-step scratch (div) when the lengths differ by > 32
+    big = [(60, 50), (52, 51), (100, 52), (90, 40), (301, 20), (305, 300)] + ([(400, 390), (800, 400), (330, 60)] if tier == "thorough" else [])
+    for (la, lb) in big:
+        for f in (forms if tier == "thorough" else [rng.choice(forms), rng.choice(forms)]):
+            a, b = operand(la, "random"), operand(lb, "random")
+            g = operand(rng.choice([1, 3]), "random")
+            yield Case("mem.arith", ["gcd", f, hx(a * g), hx(b * g)])
+            yield Case("mem.arith", ["gcd", f, hx(b), hx(a)])
+            yield Case("mem.arith", ["gcdext", f, hx(a), hx(b * g)])
+            yield Case("mem.arith", ["gcdext", f, hx(b * g), hx(a * g)])
+
+
+def extreme_cases(rng, tier):
+    """ROUND4 addendum E1: every usize argument of the mirrored public operations (shift counts, bit indices, bit counts,
+    exponents) at 0, 1, W-1, W, W+1, 2W, 2^31, 2^32-1, 2^32, 2^32+k, 2^63, usize::MAX-k — on inline, 3-word and larger values.
+    Where the result would need memory proportional to the argument the documented allocation panic is compared."""
+    MAXU = (1 << 64) - 1
+    ks = [0, 1, 2, 5, 62, 63, 64, 65, 66, 127, 128, 129]
+    ns = [0, 1, 63, 64, 65, 128, 1 << 31, (1 << 32) - 1, 1 << 32, 1 << 63] + [(1 << 32) + k for k in ks] + [MAXU - k for k in ks]
+    if tier == "thorough":
+        ns += [(1 << 32) + k for k in range(130)] + [MAXU - k for k in range(131)] + [(1 << 63) + k for k in (1, 63, 64)]
+    vals = [0, 1, (1 << 64) - 1, (1 << 127) + 5, nat_pattern(rng, 3, "random"), nat_pattern(rng, 3, "ones"), nat_pattern(rng, 4, "random"),
+            nat_pattern(rng, 9, "random"), 1 << 192, (1 << 320) - 1]
+    for n in sorted(set(ns)):
+        for a in vals:
+            for op in ("shr", "clearbit", "clearhigh", "splitbits"):
+                forms = ("v", "r", "a") if op == "shr" else ("v",)
+                for f in forms:
+                    yield Case("mem.arith", [op, f, hx(a), "d:%d" % n])
+            for f in ("v", "r"):
+                yield Case("mem.arith", ["ishr", f, hx(-a), "d:%d" % n])
+            # operations whose result grows with the argument: only where the result is small, or where the request exceeds
+            # MAX_CAPACITY words (n >= usize::MAX - 63: n / 64 = MAX_CAPACITY) and the documented allocation panic is compared;
+            # in between the real code would ask the allocator for up to 2^61 bytes (allocation failure is not modelled)
+            grow_ok = n <= 128 or n >= MAXU - 63
+            if a == 0 or grow_ok:
+                for f in ("v", "r", "a"):
+                    yield Case("mem.arith", ["shl", f, hx(a), "d:%d" % n])
+                yield Case("mem.arith", ["ishl", "v", hx(-a), "d:%d" % n])
+            if grow_ok:
+                yield Case("mem.arith", ["setbit", "v", hx(a), "d:%d" % n])
+            if a in (0, 1) or n <= 5:
+                yield Case("mem.arith", ["pow", "r", hx(a), "d:%d" % n])
+                yield Case("mem.arith", ["ipow", "r", hx(-a), "d:%d" % n])
+        # base 2^k: `exp.checked_mul(shift)` overflowing usize is the documented panic; base 2 with exp >= usize::MAX - 63
+        # reaches `Buffer::allocate(MAX_CAPACITY + 1)`
+        if n >= MAXU - 63:
+            yield Case("mem.arith", ["pow", "r", hx(2), "d:%d" % n])
+        if n >= (1 << 58):
+            yield Case("mem.arith", ["pow", "r", hx(1 << 64), "d:%d" % n])
+            yield Case("mem.arith", ["ipow", "r", hx(-(1 << 70)), "d:%d" % n])
+
+
 def bump_cases(rng, tier):
     """memory.rs bump allocator through the memory_split hook: nested allocate_slice_fill of u8..u128 slices from a
     16-aligned block; offsets/lengths and the out-of-memory point against Model/Mem/Memory.lean"""
@@ -1436,6 +1654,8 @@ def generate(rng, tier):
     yield from with_assign_forms(rng, round4b_cases(rng, tier))
     yield from sqrt_cases(rng, tier)
     yield from with_assign_forms(rng, ibit_cases(rng, tier))
+    yield from round5_cases(rng, tier)
+    yield from extreme_cases(rng, tier)
     yield from clone_from_ladder(rng, tier)
     yield from buf_cases(rng, tier)
     yield from val_cases(rng, tier)
